@@ -12,6 +12,11 @@ import (
 
 // ExecLocal exec local
 func (c *Coins) ExecLocal(tx *types.Transaction, receipt *types.ReceiptData, index int) (dbSet *types.LocalDBSet, err error) {
+	// same rule as DriverBase.callLocal, which ExecDelLocal goes through: a transaction that failed in
+	// execution (receipt not ExecOk) has no local data to add, so that removing the block restores it
+	if c.CheckReceiptExecOk() && receipt.GetTy() != types.ExecOk {
+		return &types.LocalDBSet{}, nil
+	}
 	dbSet, err = c.execLocal(tx, receipt, index)
 	if err != nil || dbSet == nil { // 不能向上层返回LocalDBSet为nil, 以及error
 		return &types.LocalDBSet{}, nil
